@@ -177,6 +177,7 @@ func Note(s string)        {}
 // provenance queries exist only inside the engine
 func Sources(b []byte) string   { return "crypto" }
 func Reseeded() bool            { return false }
+func RandMayFail()              {}
 func NonConstant(b []byte) bool { return true }
 
 // Yield: scheduling point.  Natively the goroutines run freely; a short pause lets others in.
